@@ -75,7 +75,9 @@ def build_probes():
     bins = {}
     for tag, pkg, files, extra in (
             ('c01-ext', 'internal/zzverif/c01', {}, ext),
-            ('c01-patch', 'internal/patch', {'zz_verif_c01_test.go': os.path.join(hc, 'patch_probe_test.go')}, helpers),
+            ('c01-patch', 'internal/patch', {'zz_verif_c01_test.go': os.path.join(hc, 'patch_probe_test.go'),
+                                             'zz_verif_c01_decl.go': os.path.join(hc, 'patch_nop_decl.go'),
+                                             'zz_verif_c01_amd64.s': os.path.join(hc, 'patch_nop_amd64.s')}, helpers),
             ('c01-bytecode', 'internal/bytecode', {'zz_verif_c01_test.go': os.path.join(hc, 'getptr_probe_test.go')}, helpers)):
         b, err = C.overlay_build(tag, pkg, files, extra)
         if b is None:
@@ -219,6 +221,9 @@ def gen_patch_lines(rng, n):
             m = rng.below(10)
             if m < 3 or not guards:
                 f, r = rng.below(3), rng.below(6)
+                if rng.below(8) == 0:
+                    steps.append(f'rep 3 {r}')      # NOP-led function: rejected ("already patched"), stays registered without guard
+                    continue
                 steps.append(f'rep {f} {r}')
                 reg[f] = len(guards)
                 guards.append(f)
@@ -232,7 +237,7 @@ def gen_patch_lines(rng, n):
             elif m == 5:
                 steps.append(f'unp {rng.below(len(guards))}')
             elif m == 6:
-                f = rng.below(3)
+                f = rng.below(4)
                 steps.append(f'unf {f}')
                 reg.pop(f, None)
             elif m == 7 and rng.below(3) == 0:
